@@ -568,7 +568,12 @@ def guided_scenarios(sd, templates, num, seed_):
             seen.add(key)
             e = json.loads(json.dumps(es))
             e["name"] = "%s#%d" % (es["name"], len(seen))
-            e["schedules"] = [[p for p, _, _ in b]]
+            # the explorer's names: a notification is the environment step n<i>, the watcher it wakes runs as bg1
+            def xname(p, c):
+                if kinds[p]["kind"] == "notify":
+                    return ("n" + p[1:]) if c == "env:notify" else "bg1"
+                return p
+            e["schedules"] = [[xname(p, c) for p, c, _ in b]]
             e["lenient"] = True
             e["model_schedule"] = ["%s:%s" % (p, c) for p, c, _ in b]
             started = []
